@@ -141,7 +141,25 @@ def main(argv=None):
         }
         unit_reports.append(rep)
         if r.status == 'undecided':
-            undecided.append('%s: %s' % (u.name, r.reason))
+            # functions that could not be processed this run (changed into something outside the subset): the property is
+            # undecided only if one of them carries a clause or an automatic obligation for it
+            iso = getattr(r, 'isolated', []) if getattr(r, 'only_isolated', False) else None
+            if iso:
+                carrying = []
+                for it in u.items:
+                    if it.name in iso:
+                        tags = set(it.auto)
+                        for st in it.stored:
+                            tags.update(st[2])
+                        if prop in tags:
+                            carrying.append(it.name)
+                rep['not_processed_this_run'] = iso
+                if carrying:
+                    undecided.append('%s: %s' % (u.name, r.reason))
+                else:
+                    rep['status'] = 'ok (functions without clauses for %s not processed: %s)' % (prop, ', '.join(iso))
+            else:
+                undecided.append('%s: %s' % (u.name, r.reason))
         for f in r.failures:
             if f.kind != 'verification':
                 continue
